@@ -31,7 +31,7 @@ func (c16) Info() core.Info {
 		ID:    "C16",
 		Title: "Tokens carry their true offset and text; spacing between tokens is irrelevant",
 		Level: "exploration",
-		Rule: "(1) ALL strings of length <= 6 (thorough: 7) over the symbol alphabet {a 1 space ' \" = ! < + & ( ,}, over {k . ` ^ ~ > - * | ) [ ;} and over {a space ' \" ` = ( , 1} (all three quote characters together) and over {a space TAB LF CR ' = 1 ,} (every kind of white space); (2) all sequences of <= 4 (thorough: 5) tokens from a 24-token pool (keywords, word operators, names, numbers, quoted literals, every symbol class) rendered with every choice of 0/1/2 spaces between neighbours wherever the reference lexer says the space is optional. " +
+		Rule: "(1) ALL strings of length <= 6 (thorough: 7) over the symbol alphabet {a 1 space ' \" = ! < + & ( ,}, over {k . ` ^ ~ > - * | ) [ ;} and over {a space ' \" ` = ( , 1} (all three quote characters together) and over {a space TAB LF CR ' = 1 ,} (every kind of white space); (2) words of every length 1..40 in lower / UPPER / Mixed case and long numbers, alone and next to operators and brackets; (3) all sequences of <= 4 (thorough: 5) tokens from a 24-token pool (keywords, word operators, names, numbers, quoted literals, every symbol class) rendered with every choice of 0/1/2 spaces between neighbours wherever the reference lexer says the space is optional. " +
 			"Oracle: an independent reference lexer written from the README token classes: same sequence of kinds and texts; every token's text is found at its reported offset (case-folded for words; quoted literals: the exact bytes between the quotes); two-character operators are one token; spacing variants give identical kind/text sequences. Non-trivial: >= 2 tokens. Distinct: the input string.",
 		Assumptions: []string{
 			"white space is the space, tab, line feed and carriage return characters", "after an unterminated quote only the tokens before it are judged",
@@ -70,8 +70,11 @@ func classifyWord(w string) string {
 	if k, ok := c16Keywords[lw]; ok {
 		return k
 	}
-	if isDigits(lw) && len(lw) < 19 {
-		return "NUM"
+	if isDigits(lw) {
+		if _, err := strconv.ParseInt(lw, 10, 64); err == nil {
+			return "NUM"
+		}
+		return "FLOAT" // an integer literal beyond int64 is read as a float
 	}
 	if i := strings.IndexByte(lw, '.'); i >= 0 && (isDigits(lw[:i]) || lw[:i] == "") && (isDigits(lw[i+1:]) || lw[i+1:] == "") && len(lw) > 1 {
 		return "FLOAT"
@@ -292,6 +295,7 @@ func c16Units(t core.Tier) []c16Unit {
 	for i := range c16Pool {
 		us = append(us, c16Unit{fam: "spacing", i: i})
 	}
+	us = append(us, c16Unit{fam: "words"})
 	return us
 }
 
@@ -337,6 +341,22 @@ func (c16) RunUnit(t core.Tier, u int, r *core.Reporter) {
 		}
 		rec(un.pre)
 		r.Observed(un.pre)
+	case "words":
+		// words of every length 1..40 in lower, UPPER and Mixed case (keywords
+		// are at most 7 bytes long), numbers of growing length, alone and
+		// between an operator and a bracket
+		var ws []string
+		for n := 1; n <= 40; n++ {
+			lower := strings.Repeat("abcdefghij", 4)[:n]
+			ws = append(ws, lower, strings.ToUpper(lower), strings.ToUpper(lower[:1])+lower[1:], lower[:n/2]+strings.ToUpper(lower[n/2:]),
+				strings.Repeat("1234567890", 4)[:n], lower[:n-1]+"_", "A"+strings.Repeat("9", n-1))
+		}
+		ws = append(ws, "SELECTED", "Between", "BETWEENX", "between_", "WhereKey", "KEYVALUE", "Is_Prefix", "TRUEFALSE", "LIMITLESS", "ORDERBY", "groupBY", "InIn", "ANDOR", "Ascending", "DESCENDING")
+		for _, w := range ws {
+			for _, q := range []string{w, w + " = 1", "(" + w + ")", "a=" + w + ",", "select " + w + " as " + w + " where " + w, w + "(" + w + ")"} {
+				judge(c16Case{Query: q})
+			}
+		}
 	case "spacing":
 		maxToks := 4
 		if t == core.Thorough {
